@@ -14,7 +14,7 @@ from vf.ref import mapping as rm
 
 LEVEL = "exploration"
 RULE = (
-    "lookup cases: one per (mapping, logical address), enumerated in disjoint address chunks, "
+    "bus-API cases: histories of Bus.map/unmap calls, then every bank probed; lookup cases: one per (mapping, logical address), enumerated in disjoint address chunks, "
     "non-trivial = judged by the reference (mapped ROM in-window, RAM, or unmapped-must-reject); "
     "advance cases: (mapping, address, m, n) triples hashed; .map cases: (configuration, probe) hashed"
 )
@@ -39,6 +39,8 @@ def plan(tier: str, seed: int) -> list[dict]:
             shards.append({"kind": "advance", "seed": seed * 1000 + i, "n": 160_000})
         for i in range(16):
             shards.append({"kind": "maps", "seed": seed * 1000 + i, "n": 32})
+        for i in range(16):
+            shards.append({"kind": "bus_api", "seed": seed * 1000 + i, "n": 40})
     else:
         for rom in ("low", "high"):
             for k in range(8):
@@ -47,6 +49,8 @@ def plan(tier: str, seed: int) -> list[dict]:
             shards.append({"kind": "advance", "seed": seed * 1000 + i, "n": 25_000})
         for i in range(8):
             shards.append({"kind": "maps", "seed": seed * 1000 + i, "n": 5})
+        for i in range(4):
+            shards.append({"kind": "bus_api", "seed": seed * 1000 + i, "n": 12})
     return shards
 
 
@@ -348,6 +352,67 @@ def run_maps(shard: dict, res: Res) -> None:
         res.sample({"kind": "maps", "src": src, "probes": len(probes)})
 
 
+def run_bus_api(shard: dict, res: Res) -> None:
+    """Histories of Bus.map / Bus.unmap calls on a user bus: afterwards exactly the live mappings translate, every other
+    bank (never mapped, or mapped by something that was unmapped since) is rejected."""
+    from a816.cpu.mapping import Bus
+
+    rng = random.Random(shard["seed"] ^ 0xB05)
+    for _ in range(shard["n"]):
+        first = gen_map_config(rng)
+        bus = Bus("user")
+        live: list[dict] = []
+        hist: list = []
+
+        def do_map(m):
+            bus.map(str(m["identifier"]), tuple(m["bank_range"]), tuple(m["addr_range"]), m["mask"], writeable=bool(m.get("writable")),
+                    mirror_bank_range=tuple(m["mirror_bank_range"]) if m.get("mirror_bank_range") else None)
+            live.append(m)
+            hist.append(["map", m])
+
+        for m in first:
+            do_map(m)
+        gone = [m for m in first if rng.random() < 0.5]
+        for m in gone:
+            bus.unmap(str(m["identifier"]))
+            live.remove(m)
+            hist.append(["unmap", m["identifier"]])
+        # new mappings only over space that no live mapping covers (they may re-use what was unmapped)
+        def covered(lo, hi):
+            for m in live:
+                for rr in (m["bank_range"], m.get("mirror_bank_range")):
+                    if rr and not (hi < rr[0] or lo > rr[1]):
+                        return True
+            return False
+        for k in range(rng.randint(0, 2)):
+            for _try in range(20):
+                if gone and rng.random() < 0.6:
+                    g = rng.choice(gone)
+                    lo = g["bank_range"][0]
+                    hi = rng.randint(lo, g["bank_range"][1])
+                else:
+                    lo = rng.randrange(256)
+                    hi = min(255, lo + rng.randrange(0, 24))
+                if not covered(lo, hi):
+                    size = rng.choice([0x8000, 0x10000])
+                    do_map({"identifier": 20 + k, "bank_range": (lo, hi), "addr_range": (0x8000, 0xFFFF) if size == 0x8000 else (0, 0xFFFF), "mask": size})
+                    break
+        cfg = rm.from_map_directives(live)
+        table = bank_table(cfg)
+        wit = {"kind": "bus_api", "history": hist}
+        res.count("bus_api_histories")
+        for bank in range(256):
+            for low in (0x0000, 0x8000, 0xC123, 0xFFFF):
+                a = (bank << 16) | low
+                check_lookup(res, cfg, bus, "api", a, table, dict(wit, a=a))
+        for _ in range(120):
+            if not cfg:
+                break
+            a, m_, n_ = gen_addr(rng, cfg), gen_inc(rng), gen_inc(rng)
+            check_advance(res, cfg, bus, "api", a, m_, n_, dict(wit, a=a, m=m_, n=n_))
+        res.sample({"kind": "bus_api", "calls": [[h[0], h[1] if h[0] == "unmap" else h[1]["bank_range"]] for h in hist]})
+
+
 # ----------------------------------------------------------------------------
 def run_shard(shard: dict) -> Res:
     res = Res()
@@ -358,11 +423,32 @@ def run_shard(shard: dict) -> Res:
         run_advance(shard, res)
     elif kind == "maps":
         run_maps(shard, res)
+    elif kind == "bus_api":
+        run_bus_api(shard, res)
     return res
 
 
 def replay(w: dict) -> Res:
     res = Res()
+    if w.get("kind") == "bus_api":
+        from a816.cpu.mapping import Bus
+
+        bus = Bus("user")
+        live = []
+        for op, arg in w["history"]:
+            if op == "map":
+                bus.map(str(arg["identifier"]), tuple(arg["bank_range"]), tuple(arg["addr_range"]), arg["mask"], writeable=bool(arg.get("writable")),
+                        mirror_bank_range=tuple(arg["mirror_bank_range"]) if arg.get("mirror_bank_range") else None)
+                live.append(arg)
+            else:
+                bus.unmap(str(arg))
+                live = [m for m in live if m["identifier"] != arg]
+        cfg = rm.from_map_directives(live)
+        if "m" in w:
+            check_advance(res, cfg, bus, "api", w["a"], w["m"], w["n"], w)
+        else:
+            check_lookup(res, cfg, bus, "api", w["a"], bank_table(cfg), w)
+        return res
     if w["kind"] == "maps" or "src" in w:
         from vf.harness import assemble
 
